@@ -667,6 +667,20 @@ class Env:
 
     def compare(self, e):
         if len(e.ops) != 1:
+            # a < b < c  ==  (a < b) and (b < c)
+            parts = []
+            left = e.left
+            for op_, right in zip(e.ops, e.comparators):
+                parts.append(ast.copy_location(ast.Compare(left=left, ops=[op_], comparators=[right]), e))
+                left = right
+            vals = [self.compare(p_) for p_ in parts]
+            if any(v is False for v in vals):
+                return False
+            vals = [v for v in vals if v is not True]
+            if not vals:
+                return True
+            if all(isinstance(v, Mask) for v in vals):
+                return Mask(sp.And(*[v.cond for v in vals]))
             raise Unsupported("symx: chained comparison at %s" % self.where(e))
         a, b = self.ev(e.left), self.ev(e.comparators[0])
         op = e.ops[0]
@@ -1041,7 +1055,7 @@ class Env:
                 if k2 == "self" or k2.startswith("self."):
                     bind[k2] = v2
             bind.setdefault("self", Opaque("self"))
-            env = Env(self.se, tgt, tgt.module, dict(bind), {}, depth=self.depth + 1)
+            env = type(self)(self.se, tgt, tgt.module, dict(bind), {}, depth=self.depth + 1)
             for p in tgt.params:
                 pn = p.lstrip("*")
                 if pn not in env.vars and pn in tgt.defaults:
@@ -1070,7 +1084,7 @@ class Env:
                     bind[k.arg] = self.ev(k.value)
             sub = SymEval.__new__(SymEval)
             sub.__dict__ = self.se.__dict__
-            env = Env(self.se, tgt, tgt.module, dict(bind), {}, depth=self.depth + 1)
+            env = type(self)(self.se, tgt, tgt.module, dict(bind), {}, depth=self.depth + 1)
             for p in tgt.params:
                 pn = p.lstrip("*")
                 if pn not in env.vars and pn in tgt.defaults:
